@@ -73,7 +73,7 @@ def urls_from_html(string, encoding="utf-8", errors="strict"):
         iterator = __urls_finditer(string)
 
     for url in iterator:
-        url = url.strip()
-        url = unescape(url)
+        # NOTE: whitespace can also be written as a character reference
+        url = unescape(url.strip()).strip()
 
         yield url
